@@ -498,10 +498,11 @@ class ForallFact:
         self.witness = witness
         self.name = name
         self.nested = nested or []  # quantified facts created at the generic key (instantiated along)
+        self.base_only = False  # instantiate only at the demanded index terms (Skolems / witnesses)
 
     def subst(self, pairs):
         sub = lambda t: z3.substitute(t, *pairs) if t is not None else None
-        return ForallFact(
+        ff = ForallFact(
             self.k,
             sub(self.guard),
             sub(self.body),
@@ -510,6 +511,8 @@ class ForallFact:
             name=self.name,
             nested=[n.subst(pairs) for n in self.nested],
         )
+        ff.base_only = self.base_only
+        return ff
 
     def inst(self, t):
         if isinstance(self.k, (list, tuple)):
@@ -544,6 +547,8 @@ class State:
         self.trace = []
         self.new_refs = []  # (ref term, guard) of allocated abstract containers
         self.readlog = None
+        self.np_calls = []
+        self.arrlog = None
         self.sandbox_fresh = None
         self.infeasible = False
 
@@ -561,6 +566,8 @@ class State:
         s.trace = list(self.trace)
         s.new_refs = list(self.new_refs)
         s.readlog = self.readlog
+        s.np_calls = list(getattr(self, "np_calls", []))
+        s.arrlog = list(self.arrlog) if getattr(self, "arrlog", None) is not None else None
         s.sandbox_fresh = self.sandbox_fresh
         s.infeasible = self.infeasible
         return s
@@ -630,14 +637,17 @@ class State:
                 return
         self.index_terms.append(t)
 
-    def forall(self, k, guard, body, equiv=False, name=""):
+    def forall(self, k, guard, body, equiv=False, name="", base_only=False):
         """Record forall k. guard -> body.  With equiv=True return a Bool equivalent to it."""
         if equiv:
             b = self.fresh("all." + name, z3.BoolSort())
             w = self.fresh("wit." + name, k.sort())
             ff = ForallFact(k, guard, body, bvar=b, witness=w, name=name)
+            ff.base_only = base_only
             self.foralls.append(ff)
             self.add_index(w)
             return b
-        self.foralls.append(ForallFact(k, guard, body, name=name))
+        ff = ForallFact(k, guard, body, name=name)
+        ff.base_only = base_only
+        self.foralls.append(ff)
         return None
